@@ -4,4 +4,4 @@ Require Import ExtrOcamlBasic.
 Extraction Language OCaml.
 Definition c11_unused_z : Z := 0%Z.
 Extraction "../ocaml/c11/model.ml" util_add util_mul util_divmod c11_unused_z
-  calls_ok handle_tasks a_start calls_of a_err a_index.
+  calls_ok handle_tasks a_start calls_of streams_of a_err a_index.
